@@ -4,6 +4,8 @@ Shared driver for the transcript oracles (core Lean only; DESIGN §2.2, Appendix
 Transcript grammar (one record per line, tokens separated by single spaces):
   case <n> <arg> …     start of a case; model, monitor and impl state reset
   op <name> <arg> …    an operation exactly as generated
+  ext <fn> <arg> … = <result>   graph of an external function (hash, formatting, rand draw …) or an
+                       acceptor input, emitted by the harness after the `op` it belongs to
   obs <value> …        what the implementation answered for the preceding `op`
   end
 
@@ -26,10 +28,10 @@ structure Component (σ μ : Type) where
   init : List String → σ                       -- from the `case` line's arguments
   /-- model step: new state and the observation the model predicts (`none`: op has no output,
   `some "bad-op"`: the model does not know this operation). -/
-  step : σ → List String → σ × Option String
+  step : σ → List String → List (List String) → σ × Option String   -- state, op tokens, ext lines
   minit : List String → μ
-  /-- monitor step on (op, implementation obs) -/
-  mon : μ → List String → Option String → μ × List Fail
+  /-- monitor step on (op, ext lines, implementation obs) -/
+  mon : μ → List String → List (List String) → Option String → μ × List Fail
 
 def splitLine (line : String) : List String :=
   (line.trimAscii.toString.splitOn " ").filter (· ≠ "")
@@ -40,29 +42,32 @@ structure Loop (σ μ : Type) where
   st : σ
   ms : μ
   pendingOp : Option (List String × Nat) := none
-  expected : Option String := none
+  exts : Array (List String) := #[]
+  obs : Option String := none
   mismatch : Option String := none
   fails : Array String := #[]
   nops : Nat := 0
 
 partial def runLoop {σ μ : Type} (c : Component σ μ) (h : IO.FS.Stream) : IO Unit := do
   let out ← IO.getStdout
-  let flushPending (L : Loop σ μ) (obs : Option String) (lineNo : Nat) : Loop σ μ := Id.run do
+  let flushPending (L : Loop σ μ) : Loop σ μ := Id.run do
     match L.pendingOp with
     | none => return L
     | some (op, opLine) =>
       let mut L := L
+      let exts := L.exts.toList
+      let obs := L.obs
+      let (st', exp) := c.step L.st op exts
+      L := { L with st := st' }
       -- model comparison (only until the first mismatch of the case)
       if L.mismatch.isNone then
-        let exp := L.expected
         if exp != obs then
           L := { L with mismatch := some s!"line={opLine} op={" ".intercalate op} model={exp.getD "-"} impl={obs.getD "-"}" }
-      let (ms', fs) := c.mon L.ms op obs
+      let (ms', fs) := c.mon L.ms op exts obs
       let mut arr := L.fails
       for f in fs do
         arr := arr.push s!"{f.prop} line={opLine} sig={f.sig} {f.what}"
-      let _ := lineNo
-      return { L with ms := ms', fails := arr, pendingOp := none, expected := none }
+      return { L with ms := ms', fails := arr, pendingOp := none, exts := #[], obs := none }
   let finish (L : Loop σ μ) : IO Unit := do
     if L.active then
       match L.mismatch with
@@ -73,23 +78,23 @@ partial def runLoop {σ μ : Type} (c : Component σ μ) (h : IO.FS.Stream) : IO
   let rec go (L : Loop σ μ) (lineNo : Nat) : IO Unit := do
     let line ← h.getLine
     if line.isEmpty then
-      let L := flushPending L none lineNo
+      let L := flushPending L
       finish L
       return
     match splitLine line with
     | "case" :: n :: args =>
-      let L := flushPending L none lineNo
+      let L := flushPending L
       finish L
       go { caseId := n, active := true, st := c.init args, ms := c.minit args } (lineNo + 1)
     | "op" :: rest =>
-      let L := flushPending L none lineNo
-      let (st', exp) := c.step L.st rest
-      go { L with st := st', pendingOp := some (rest, lineNo), expected := exp, nops := L.nops + 1 } (lineNo + 1)
+      let L := flushPending L
+      go { L with pendingOp := some (rest, lineNo), nops := L.nops + 1 } (lineNo + 1)
+    | "ext" :: rest =>
+      go { L with exts := L.exts.push rest } (lineNo + 1)
     | "obs" :: rest =>
-      let L := flushPending L (some (" ".intercalate rest)) lineNo
-      go L (lineNo + 1)
+      go { L with obs := some (" ".intercalate rest) } (lineNo + 1)
     | "end" :: _ =>
-      let L := flushPending L none lineNo
+      let L := flushPending L
       finish L
       go { L with active := false, fails := #[], mismatch := none } (lineNo + 1)
     | _ => go L (lineNo + 1)
